@@ -95,7 +95,8 @@ def validation_loss_ob(with_param, with_obs):
             return (adv("Gv", vs), adv("Gp", sp) if with_param else 0.0, adv("Go", so) if with_obs else 0.0,
                     arr(lambda _: cnt1, ()), arr(lambda _: best1, ()), arr(lambda _: stop, ()), arr(lambda _: val, ()),
                     arr(lambda _: improved, ()))
-        return dict(fn=fn, spec=spec, canary=lambda *z: spec(*z, wrong=True),
+        # a NaN validation loss (finite parameters) is not a strict new minimum: probed natively with a NaN weight
+        return dict(fn=fn, spec=spec, canary=lambda *z: spec(*z, wrong=True), probe_nonfinite=["w"],
                     inputs=[Inp("theta", (c07.P_,)), Inp("a", ()), Inp("vs", (KS,)), Inp("sp", (KS,)), Inp("so", (KS,)), Inp("w", (1,)),
                             Inp("best", ()), Inp("cnt", ()), Inp("pat", ()), Inp("es", (), "bool")])
     return EqObligation(f"C19/ValidationLoss.__call__/ensures[param_gen={int(with_param)},obs_gen={int(with_obs)}]", build,
